@@ -80,6 +80,8 @@ func andBit(x, y int) int {
 type bitEval struct {
 	env  map[ssa.Value]bits           // fixed values (parameters)
 	load func(ssa.Value) (bits, bool) // loads of b[k]
+	// byteAt: the k-th byte of the slice value base (for binary.BigEndian.UintN(base))
+	byteAt func(base ssa.Value, k int) (bits, bool)
 	memo map[ssa.Value]bits
 	err  string
 }
@@ -161,6 +163,36 @@ func (e *bitEval) of(v ssa.Value) bits {
 		default:
 			return unknown("operator " + x.Op.String() + " outside the bit domain")
 		}
+	case *ssa.Call:
+		// binary.BigEndian.Uint16/32/64(x): the big-endian word of x's first bytes
+		if f := x.Call.StaticCallee(); f != nil && e.byteAt != nil && len(x.Call.Args) == 2 {
+			n := 0
+			switch f.RelString(nil) {
+			case "(encoding/binary.bigEndian).Uint16":
+				n = 2
+			case "(encoding/binary.bigEndian).Uint32":
+				n = 4
+			case "(encoding/binary.bigEndian).Uint64":
+				n = 8
+			}
+			if n > 0 {
+				okAll := true
+				for j := 0; j < n; j++ {
+					bb, ok := e.byteAt(x.Call.Args[1], j)
+					if !ok {
+						okAll = false
+						break
+					}
+					for bit := 0; bit < 8; bit++ {
+						out[8*(n-1-j)+bit] = bb[bit]
+					}
+				}
+				if okAll {
+					break
+				}
+			}
+		}
+		return unknown("call outside the bit domain")
 	case *ssa.UnOp:
 		if x.Op == token.MUL && e.load != nil {
 			if b, ok := e.load(x.X); ok {
@@ -429,6 +461,13 @@ func c19(p *Prog, r *Report) {
 			}
 			return eb[int(k.Int64())], true
 		}
+		de.byteAt = func(base ssa.Value, k int) (bits, bool) {
+			idx, ok := sliceByteIndex(base, con.Params[0], k)
+			if !ok || idx >= len(eb) {
+				return bits{}, false
+			}
+			return eb[idx], true
+		}
 		got := de.of(dc.val)
 		wantV := bitsInput(width)
 		okDec := de.err == "" && got == wantV && dc.n == int64(sizes[i])
@@ -449,6 +488,17 @@ func c19(p *Prog, r *Report) {
 			var b bits
 			for j := 0; j < 8; j++ {
 				b[j] = 2 + 8*int(k.Int64()) + j
+			}
+			return b, true
+		}
+		ae.byteAt = func(base ssa.Value, k int) (bits, bool) {
+			idx, ok := sliceByteIndex(base, con.Params[0], k)
+			if !ok {
+				return bits{}, false
+			}
+			var b bits
+			for j := 0; j < 8; j++ {
+				b[j] = 2 + 8*idx + j
 			}
 			return b, true
 		}
@@ -750,4 +800,28 @@ func optInt(v *int64) string {
 		return "none"
 	}
 	return fmt.Sprint(*v)
+}
+
+// sliceByteIndex: base is the parameter prm or a constant-offset re-slice of
+// it; returns the index in prm of base[k].
+func sliceByteIndex(base ssa.Value, prm ssa.Value, k int) (int, bool) {
+	off := 0
+	for i := 0; i < 4; i++ {
+		if base == prm {
+			return off + k, true
+		}
+		sl, ok := base.(*ssa.Slice)
+		if !ok {
+			return 0, false
+		}
+		if sl.Low != nil {
+			c, ok := sl.Low.(*ssa.Const)
+			if !ok || c.Value == nil {
+				return 0, false
+			}
+			off += int(c.Int64())
+		}
+		base = sl.X
+	}
+	return 0, false
 }
